@@ -176,6 +176,11 @@ impl<S: Sample> FrameRenderHandle<S> {
         #[cfg(jxl_oxide_verif)]
         crate::verif::verif_sched("reset:lock", self.frame.idx);
         let mut render_ref = self.render.lock().unwrap();
+        if matches!(*render_ref, FrameRender::Rendering) {
+            // Someone is rendering this frame right now; clearing the marker would let another
+            // thread start the same render a second time. `done_render` will store the result.
+            return FrameRender::Rendering;
+        }
         std::mem::replace(&mut *render_ref, FrameRender::None)
     }
 
